@@ -5,7 +5,6 @@ import (
 	"strings"
 
 	"github.com/smarthome-go/homescript/v3/homescript/errors"
-	"github.com/smarthome-go/homescript/v3/homescript/lexer/util"
 	"github.com/smarthome-go/homescript/v3/homescript/parser/ast"
 )
 
@@ -696,12 +695,7 @@ type ObjectTypeField struct {
 }
 
 func (self ObjectTypeField) String() string {
-	var key string
-	if !util.IsIdent(self.FieldName.Ident()) {
-		key = fmt.Sprintf("\"%s\"", self.FieldName.Ident())
-	} else {
-		key = self.FieldName.Ident()
-	}
+	key := printObjectKey(self.FieldName.Ident())
 
 	annotationStr := ""
 	if self.Annotation != nil {
